@@ -23,7 +23,7 @@ contract(U + "BlockBase.match",
                enable_where_construct_hook="bool", strict_order="bool", strict_match_names="bool"),
     returns="tuple[list[ref:Base]]?",
     not_assumed=["tables.nomatch.nothing_lost"],
-    clause_props={"post.tables": ["C09", "C16"], "raises.*.tables": ["C09", "C16"], "post.scope": ["C09", "C16"], "raises.*.scope": ["C09", "C16"],
+    clause_props={"post.tables": ["C09", "C16"], "raises.*!StopIteration.tables": ["C09", "C16"], "post.scope": ["C09", "C16"], "raises.*!StopIteration.scope": ["C09", "C16"],
                   "post.end.": ["C08"], "post.names.": ["C08"], "post.labels.": ["C08"],
                   "post.restore": ["C08", "C11", "C12", "C20"], "post.order": ["C11", "C12", "C10"]},
     bind={"SYMBOL_TABLES": "ref:SymbolTables", "di.C99Preprocessor.match_cpp_directive": "cls"},
@@ -63,7 +63,9 @@ contract(U + "BlockBase.match",
         "labels.agree@ret4": "implies(result is not None and found_end and match_labels, start_label == end_label)",
         "something_matched@ret4": "implies(result is not None, len(content) > 0 and result[0] == content)",
     },
-    raises={"*": {
+    # reaching the end of the input is handled inside (get_item returns None): StopIteration never comes out, so the
+    # loop of Program.match cannot mistake a failure below for the end of the source
+    raises={"*!StopIteration": {
         "scope.exc": "scope_stack == old(scope_stack)",
         "rep": "REP(SYMBOL_TABLES)",
         "tables.exc.nothing_left": "dict_subset(SYMBOL_TABLES._symbol_tables, old(SYMBOL_TABLES._symbol_tables))",
@@ -127,7 +129,7 @@ contract(F + "Program.match",
               "*._children", "SYMBOL_TABLES._symbol_tables", "SYMBOL_TABLES._current_scope",
               "*._name", "*._data_symbols", "*._modules", "*._parent", "*._node", "*._checking_enabled", "*.message"],
     calls={"add_comments_includes_directives": "fparser.two.Fortran2003:add_comments_includes_directives", "Program_Unit": "proto:rule_call",
-           "reader.next": "proto:reader_next", "reader.put_item": "proto:put_item"},
+           "reader.next": "proto:reader_next", "reader.put_item": "proto:put_item", "BlockBase.match": "fparser.two.utils:BlockBase.match"},
     ensures={
         # C02/C08: a tree is returned only when every item of the input is accounted for by a node of the tree
         "covers_all_items": "implies(result is not None, old(view) == cons(result[0]) + view)",
